@@ -125,6 +125,9 @@ def rng(t, cx, ty=None, depth=0):
                 return inner
             return (TYMIN.get(t[2], 0), mx if mx is not None else (1 << 64) - 1)
         if t[1] == "FloatToInt":
+            from . import sign
+            if sign.cls(t[3], cx) == "ge1":
+                return (1, TYMAX.get(t[2], (1 << 64) - 1))
             fr = frange(t[3], cx, depth + 1)
             if fr is not None:
                 return (max(TYMIN.get(t[2], 0), int(fr[0])), min(TYMAX.get(t[2], (1 << 64) - 1), int(fr[1]) + 1))
